@@ -323,6 +323,8 @@ pub struct IterRes {
     pub eq_windows: Vec<bool>,
     pub nwindows: usize,
     pub terminated: bool,
+    /// nth / skip / step_by / count / last / size_hint agree with stepping by next()
+    pub laws: Option<Fail>,
 }
 
 #[derive(Clone, Debug)]
@@ -396,7 +398,10 @@ fn kusize<A: Cm, const K: usize>(req: &UReq) -> R<URes> {
             let terminated = it.next().is_none() && it.next().is_none();
             let wins: Vec<&SeqSlice<A>> = sl.windows(K).take(n + 2).collect();
             let eq_windows = raw.iter().zip(wins.iter()).map(|(k, w)| *k == *w && *k == **w).collect();
+            let exp: Vec<String> = if n >= K { spec.codes.windows(K).map(|w| sy.text(w)).collect() } else { vec![] };
+            let laws = if n <= 400 { crate::oracle::check_iter_laws(&|| sl.kmers::<K>().map(|k| k.to_string()), &exp, "kmers_laws", &[]).err() } else { None };
             URes::Iter(IterRes {
+                laws,
                 items_usize: raw.iter().map(|k| usize::from(k)).collect(),
                 eq_windows,
                 nwindows: wins.len(),
